@@ -88,8 +88,8 @@ ASSUMPTIONS = [
 
 SIG_F4 = {"site": "Patch._apply_patch", "shape": "mapping patched over non-mapping target raises TypeError"}
 SIG_EMPTY = {"site": "Patch._apply_patch", "shape": "leafless mapping patched over non-mapping target is ignored"}
-SIG_LISTBOOL = {"site": "jsonpatch.from_diff", "shape": "bool vs equal int inside a list is not diffed"}
-SIG_MOVE = {"site": "jsonpatch.from_diff", "shape": "move out of a list uses a stale index"}
+SIG_LISTBOOL = {"site": "jsonpatch.from_diff", "shape": "bool vs equal int not distinguished (list elements, move detection)"}
+SIG_MOVE = {"site": "jsonpatch.from_diff", "shape": "move optimisation with list indices yields a wrong or inapplicable patch"}
 SIG_OPS = {"site": "WebhooksRegistry.iter_handlers", "shape": "handler.operations not compared with the request operation"}
 
 # =================================================================================================
@@ -732,6 +732,7 @@ class Result:
         self.reqs: list[tuple[str, list, Any]] = []      # (what, driver request, implementation output)
         self.tags: list[str] = []
         self.result = "ok"
+        self.diff_suspect = False   # the JSON patch does not reproduce the mechanism's own result
 
     def fail(self, what: str, sig: dict) -> None:
         self.fails.append((what, sig))
@@ -769,6 +770,15 @@ def oracle_response(res: Result, resp: dict, raised: list[dict | None], warnings
                  {"site": "admission.build_response", "shape": "warnings differ from those issued, in order"})
 
 
+def _through_list(body: Any, op: dict) -> bool:
+    """does the `from` or `path` pointer of this op name a position inside a list (by its shape)?"""
+    for ptr in (op.get("from", ""), op.get("path", "")):
+        toks = ptr_parse(ptr) if ptr.startswith("/") else []
+        if any(t.isdigit() or t == "-" for t in toks):
+            return True
+    return False
+
+
 def oracle_patch(res: Result, body: dict, patch: dict, fn_objs: list, ops: Any, exc: BaseException | None,
                  to_be: Any = None) -> Any:
     """Fidelity of the JSON patch; returns the patched object (or None). The verdict compares the
@@ -787,12 +797,13 @@ def oracle_patch(res: Result, body: dict, patch: dict, fn_objs: list, ops: Any, 
         got = apply6902(body, ops)
     except (RefError, KeyError, IndexError, TypeError) as e:
         res.result = "inapplicable"
+        moves = any(op.get("op") == "move" and _through_list(body, op) for op in ops)
         res.fail(f"the returned JSON patch does not apply to the reviewed object: {e}",
-                 {"site": "Patch.as_json_patch", "shape": "json patch not applicable"})
+                 SIG_MOVE if moves and to_be is not None else {"site": "Patch.as_json_patch", "shape": "json patch not applicable"})
         return None
 
     def want_for(p: dict) -> Any:
-        w = merge7386(body, p)
+        w = merge7386(copy.deepcopy(body), p)   # deep: the fns mutate nested lists in place
         for fn in fn_objs:
             fn(w)
         return w
@@ -820,9 +831,10 @@ def oracle_patch(res: Result, body: dict, patch: dict, fn_objs: list, ops: Any, 
                 generic = True
         # (B) the diff against the mechanism's own result
         if not eq_strict(got, to_be):
-            if eq_loose_lists(got, to_be):
+            res.diff_suspect = True
+            if eq_loose_lists(got, to_be) or got == to_be:   # Python ==: True == 1, False == 0
                 sigs.append(SIG_LISTBOOL)
-            elif any(op.get("op") == "move" for op in ops):
+            elif any(op.get("op") == "move" and _through_list(body, op) for op in ops):
                 sigs.append(SIG_MOVE)
             elif not eq_strict(strip_empty(got), strip_empty(to_be)):
                 generic = True
@@ -868,7 +880,7 @@ def eval_patch(env: dict, case: dict) -> Result:
     res.reqs.append(("apply(_apply_patch+fns)", ["C18.apply", body, patch, fns], impl1))
     if got is not None and not (patch or fns):
         pass
-    elif got is not None and not any(s in (SIG_LISTBOOL, SIG_MOVE) for _, s in res.fails):
+    elif got is not None and not res.diff_suspect:
         res.reqs.append(("apply(json patch applied)", ["C18.apply", body, patch, fns], ["ok", got]))
     elif exc is not None:
         res.reqs.append(("apply(as_json_patch error)", ["C18.apply", body, patch, fns], ["err", err_tag(exc)]))
@@ -1037,7 +1049,7 @@ async def eval_serve(env: dict, case: dict) -> Result:
     except Exception:
         to_be = None
     got = oracle_patch(res, body, content, fn_objs, ops, None, to_be)
-    if got is not None and (content or fns_decl) and not any(s in (SIG_LISTBOOL, SIG_MOVE) for _, s in res.fails):
+    if got is not None and (content or fns_decl) and not res.diff_suspect:
         res.reqs.append(("apply(serve json patch applied)", ["C18.apply", body, content, fns_decl], ["ok", got]))
     # ---- allowed / status / warnings
     oracle_response(res, resp, raised_list, issued)
